@@ -7,26 +7,34 @@ open StunVerif StunVerif.Agent Driver
 
 def addrs : List String :=
   ["4:c0000201:3478", "4:c0000201:3479", "6:20010db8000000000000000000000001:3478", "4:0a000001:9",
-   "6:00000000000000000000ffffc0000207:3478", "4:c0000207:3478"]
+   "6:00000000000000000000ffffc0000207:3478", "4:c0000207:3478",
+   "6:fe800000000000000000000000000001%2:3478", "6:fe800000000000000000000000000001%3:3478"]
 def tids : List Nat :=
   [0x01, 0x02030405060708090a0b0c0d, 0xffffffffffffffffffffffff, 0x2112a442, 0x700000000000000000000001]
 
-/-- socket address text -> injective number -/
+/-- socket address text -> injective number (family, IP, IPv6 scope id, port) -/
 def addrNum (s : String) : Option Nat :=
   match s.splitOn ":" with
   | [fam, ip, port] => do
     let f ← fam.toNat?
-    let i ← ofHex ip
+    let (ipHex, scope) ← match ip.splitOn "%" with
+      | [h] => some (h, 0)
+      | [h, sc] => sc.toNat?.map (h, ·)
+      | _ => none
+    let i ← ofHex ipHex
     let p ← port.toNat?
-    some ((f * 2 ^ 128 + beNat i) * 65536 + p)
+    some (((f * 2 ^ 128 + beNat i) * 2 ^ 32 + scope) * 65536 + p)
   | _ => none
 
 def addrStr (n : Nat) : String :=
   let p := n % 65536
   let r := n / 65536
+  let scope := r % 2 ^ 32
+  let r := r / 2 ^ 32
   let f := r / 2 ^ 128
   let ip := r % 2 ^ 128
-  s!"{f}:{toHex (encBE (if f = 6 then 16 else 4) ip)}:{p}"
+  let sc := if scope = 0 then "" else s!"%{scope}"
+  s!"{f}:{toHex (encBE (if f = 6 then 16 else 4) ip)}{sc}:{p}"
 
 def keyCreds (k : String) : Creds :=
   if k == "3" then .long (asciiBytes "user") (asciiBytes "realm") (asciiBytes "pass:word")
